@@ -239,3 +239,82 @@ def r47_no_operand_alias(facts):
             c.unk(inst, verdict[1], verdict[2])
     c.floor("operations with two or more array operands", n_ops, 8)
     return c
+
+
+def r51_no_flat_broadcast_in_derivatives(facts):
+    """NO-FLAT-BROADCAST: inside the derivative of an operation with several array operands (and the helpers nested in it), two different arrays are never combined by zipping their raw value buffers - by flat position, or with `cycle()` - unless the path establishes that their dimensions are equal: equal lengths do not make flat positions correspond ([r,n] against [r,1] cycled reads s[(i*n+j) % r], not s[i])"""
+    from .op_rules import op_constructors
+    IT_ = "core::iter::traits::iterator::Iterator::"
+    c = Ctx("R51", facts, "derivatives of binary operations do not broadcast by flat position")
+    ctors = [b for b in op_constructors(facts)]
+    n_bodies = 0
+    for ctor in ctors:
+        n_arr = sum(1 for t in (ctor.get("inputs") or []) if ARRAY in (t or ""))
+        if n_arr < 2:
+            continue
+        bodies = [nb for nb in facts.nested(ctor) if nb is not ctor and is_backward_closure(nb)]
+        bodies += [x for x in facts.fns() if x["def"].startswith(ctor["def"] + "::")]
+        for cb in list(bodies):
+            if cb["kind"] == "Closure":
+                for x in facts.nested(cb):
+                    if x not in bodies:
+                        bodies.append(x)
+        for nb in bodies:
+            n_bodies += 1
+            root = facts.root(nb)
+            if root is None:
+                continue
+            lets = {}
+            for n in walk(root):
+                if n.get("k") == "Block":
+                    for st in n["stmts"]:
+                        if st["s"] == "let" and st["pat"].get("k") == "Binding" and st.get("init") is not None:
+                            lets[st["pat"]["v"]] = st["init"]
+
+            def source(e, depth=0):
+                """(array key, cycled?) if the iterator expression walks the raw values of an array"""
+                e = F.peel(e)
+                cyc = False
+                while isinstance(e, dict) and depth < 12:
+                    depth += 1
+                    if e.get("k") == "Call" and e["args"]:
+                        tail = (callee(e) or "").rsplit("::", 1)[-1]
+                        if tail == "cycle":
+                            cyc = True
+                        if tail in ("iter", "into_iter", "cycle", "copied", "cloned", "deref", "take", "skip", "as_slice", "as_ref", "borrow", "rev", "by_ref", "peekable"):
+                            e = F.peel(e["args"][0])
+                            continue
+                        if (resolved(e) or "") == "corgi::array::Array::values":
+                            return show(F.peel(e["args"][0]))[:40], cyc
+                        return None
+                    if e.get("k") == "Field" and e.get("name") == "values" and e.get("adt") == ARRAY:
+                        return show(F.peel(e["e"]))[:40], cyc
+                    if e.get("k") in ("VarRef", "UpvarRef") and e["v"] in lets:
+                        e = F.peel(lets[e["v"]])
+                        continue
+                    return None
+                return None
+            for n, ctx in F.walk_ctx(root):
+                if not (n.get("k") == "Call" and callee(n) == IT_ + "zip" and len(n["args"]) == 2):
+                    continue
+                a, b_ = source(n["args"][0]), source(n["args"][1])
+                if a is None or b_ is None or a[0] == b_[0]:
+                    continue
+                inst = "zip:%s" % nb["def"]
+                dims_eq = False
+                for cond, truth in F.path_facts(ctx):
+                    cs = strip(cond)
+                    if truth and ((cs.get("k") == "Binary" and cs.get("op") == "Eq") or (cs.get("k") == "Call" and callee(cs) == "core::cmp::PartialEq::eq")):
+                        names = {show(F.peel(x["e"]))[:40] for x in walk(cs) if x.get("k") == "Field" and x.get("name") == "dimensions"} | \
+                                {show(F.peel(x["args"][0]))[:40] for x in walk(cs) if x.get("k") == "Call" and resolved(x) == "corgi::array::Array::dimensions" and x["args"]}
+                        if a[0] in names and b_[0] in names:
+                            dims_eq = True
+                if dims_eq:
+                    c.ok(inst, F.loc(nb, n), "raw buffers of `%s` and `%s` are zipped on a path where their dimensions are equal" % (a[0], b_[0]))
+                else:
+                    c.bad(inst, F.loc(nb, n), "the derivative combines `%s` and `%s` by zipping their raw value buffers%s without having established that their dimensions are equal: "
+                          "flat positions correspond only for equal shapes (or a shape that is a suffix of the other); for a broadcast operand with a trailing unit dimension "
+                          "([r,n] against [r,1]) the wrong elements meet, so the adjoint has the right shape and wrong values"
+                          % (a[0], b_[0], " (one of them repeated with `cycle()`)" if a[1] or b_[1] else ""))
+    c.floor("derivative closures / nested helpers of operations with several array operands", n_bodies, 3)
+    return c
